@@ -326,6 +326,7 @@ def run(ctx):
         jvp_check(ctx, 'phase_gradient', lambda x: LW.phase_gradient()(x).reshape(1), rnd(8, 8, lo=0, hi=6, dtype=torch.float32), 3e-2)
         jvp_check(ctx, 'speckle_contrast', lambda x: LW.speckle_contrast(kernel_size=3)(x).reshape(1), rnd(8, 8, lo=0.2, hi=1.0, dtype=torch.float32), 5e-2)
     __import__('harness.props.genobjects', fromlist=['x']).check_mesh_object(ctx)   # regenerated planar_mesh OBJECT vs /repo (work package 13)
+    __import__('harness.props.genobjects_inst', fromlist=['x']).check_mesh_instance(ctx)   # planar_mesh INSTANTIATED with the regenerated batched geometry, at Float, every call vs /repo (work package 16)
 
 
 def object_grad_check(ctx, name, param, forward, tol_fd, h, cls=None, rounds=2):
